@@ -72,7 +72,7 @@ class Gen:
 
 def translate(src, gens, incs):
     text = open(src).read()
-    out = [c.PRELUDE % os.path.join("src", os.path.basename(src))]
+    out = [c.PRELUDE % os.path.join("src", os.path.basename(src)) + "\nFrom Coq Require Import List.\nImport ListNotations.\n"]
     docs = {}
     for g in gens:
         if g.cname not in docs: docs[g.cname] = c.clang_ast(src, g.cname, incs)
